@@ -895,7 +895,7 @@ def c_dg(d) -> str:
 def corr_machine(ck: Ck) -> None:
     """SM/Vpk.v run on the same histories as the implementation: per-op code and summary, final per-file digests,
     byte-exact directory file and archives (length + CRC32)."""
-    n_small = bud(ck, 220, 600, 3000)
+    n_small = bud(ck, 170, 600, 2500)
     n_big = bud(ck, 3, 8, 40)
     cases = [c for c in CORPUS] + list(LONG_CORPUS)
     for _ in range(n_small):
@@ -1191,7 +1191,7 @@ def corr_nested(ck: Ck) -> None:
     """SM/VpkNested.v ndel over the clean-up program compiled from VPK.__delitem__ vs the implementation's _fileinfo dicts:
     which deletes raise KeyError and the key structure (dict order, empty dicts included) left behind."""
     from srctools.vpk import VPK
-    n = bud(ck, 150, 400, 2000)
+    n = bud(ck, 100, 400, 1500)
     rng = ck.rng
     exts, dirs, stems = ['t', 'u', ''], ['a', 'b', '', 'a/b'], ['x', 'y', 'z']
     lits = []
@@ -1434,6 +1434,7 @@ def run(ck: Ck) -> None:
             # premise of c13_write_placement_is_table: the table obtained by executing FileInfo.write on symbolic values
             'write_placement_table_matches_model': 'place_table_ok g_place_table',
             'write_with_unchanged_checksum_has_no_effect': 'g_same_crc_skips',
+            'read_and_verify_take_the_bytes_from_where_write_put_them': 'read_table_ok g_read_table',
             'archive_index_validated': 'g_chk_idx',
             'unrepresentable_names_rejected': 'g_chk_name',
             'instance_satisfies_theorem_premises': 'andb (vcfg_ok (g_vcfg true (Some 1024%N))) (vcfg_ok (g_vcfg false None))',
